@@ -1124,3 +1124,23 @@ impl OpenWidth for u8 {
 pub fn bad_open_trait_plus_one<T: OpenWidth>(x: &T) -> u32 {
     x.width() + 1
 }
+
+// ---- `x != 0` on a value whose range spans zero ------------------------------------------------------------------------
+
+pub fn good_div_guarded_by_ne(n: i32, d: i32) -> i32 {
+    if d != 0 {
+        (n >> 1) / d
+    } else {
+        0
+    }
+}
+
+// the divisor is changed between the test and the division
+pub fn bad_div_changed_after_ne(n: i32, mut d: i32) -> i32 {
+    if d != 0 {
+        d = d.wrapping_sub(1);
+        (n >> 1) / d
+    } else {
+        0
+    }
+}
